@@ -445,6 +445,104 @@ impl Run {
         self.subs.push(rep);
     }
 
+    /// Register and execute an exhaustive sub-check over an explicit finite list of cases
+    /// (no sampling, no shrinking: every listed case is evaluated once).
+    pub fn enumerate<C, F>(&mut self, name: &str, cases: Vec<C>, check: F)
+    where
+        C: Debug + Clone + Serialize + DeserializeOwned + Send + Sync,
+        F: Fn(&C) -> V + Sync,
+    {
+        match &self.mode {
+            Mode::Replay(rf) => {
+                if rf.sub != name {
+                    return;
+                }
+                let case: C = match serde_json::from_value(rf.case.clone()) {
+                    Ok(c) => c,
+                    Err(e) => {
+                        eprintln!("harness error: replay case for {}/{} does not deserialise: {e}", self.prop, name);
+                        std::process::exit(2);
+                    }
+                };
+                let v = guarded(&check, &case);
+                self.replay_result = ReplayResult { matched: true, verdict: Some(v) };
+            }
+            Mode::Search => {
+                if let Some(only) = &self.only_sub {
+                    if !name.contains(only.as_str()) {
+                        return;
+                    }
+                }
+                let t0 = Instant::now();
+                let open_sigs = self.open_signatures();
+                let shards = self.threads.max(1);
+                let chunk = cases.len().div_ceil(shards).max(1);
+                let results: Vec<Vec<(usize, V)>> = std::thread::scope(|scope| {
+                    let hs: Vec<_> = cases
+                        .chunks(chunk)
+                        .enumerate()
+                        .map(|(ci, part)| {
+                            let check = &check;
+                            scope.spawn(move || part.iter().enumerate().map(|(i, c)| (ci * chunk + i, guarded(check, c))).collect::<Vec<_>>())
+                        })
+                        .collect();
+                    hs.into_iter().map(|h| h.join().expect("enumerate shard")).collect()
+                });
+                let mut rep = SubReport { name: name.to_string(), cases_requested: cases.len() as u64, ..Default::default() };
+                let mut distinct: HashSet<u64> = HashSet::new();
+                for (i, v) in results.into_iter().flatten() {
+                    match v.outcome {
+                        Outcome::Pass => {
+                            rep.evaluations += 1;
+                            for c in &v.classes {
+                                *rep.classes.entry((*c).to_string()).or_default() += 1;
+                            }
+                            if v.nontrivial {
+                                rep.nontrivial += 1;
+                                distinct.insert(case_hash(&cases[i]));
+                                if rep.samples.len() < 3 {
+                                    rep.samples.push(serde_json::to_value(&cases[i]).unwrap_or(serde_json::Value::Null));
+                                }
+                            }
+                        }
+                        Outcome::Discard(w) => *rep.discarded.entry(w.to_string()).or_default() += 1,
+                        Outcome::Excluded(w) => *rep.excluded_by_known_finding.entry(w.to_string()).or_default() += 1,
+                        Outcome::Fail { msg, sig } => {
+                            rep.evaluations += 1;
+                            if let Some(s) = sig.as_ref().filter(|s| open_sigs.contains(s)) {
+                                *rep.known_signature_hits.entry(s.clone()).or_default() += 1;
+                                continue;
+                            }
+                            rep.violations += 1;
+                            if self.violation_lines.len() < 8 {
+                                let path = write_replay(self.prop, name, &cases[i], &format!("enum-{i}"), Some(&msg));
+                                self.violation_lines.push(format!(
+                                    "VIOLATION property={} replay={} sub={} :: {}",
+                                    self.prop,
+                                    path.display(),
+                                    name,
+                                    one_line(&msg, 400)
+                                ));
+                            }
+                        }
+                    }
+                }
+                rep.distinct_nontrivial = distinct.len() as u64;
+                rep.wall_s = t0.elapsed().as_secs_f64();
+                for (sig, _) in &rep.known_signature_hits {
+                    if let Some(k) = self.known.iter().find(|k| k.signature.as_deref() == Some(sig.as_str())) {
+                        let line = format!("KNOWN-FINDING: property={} {} [{}]", self.prop, k.what, k.id);
+                        if !self.known_lines.contains(&line) {
+                            self.known_lines.push(line);
+                        }
+                    }
+                }
+                self.notes.push(format!("sub-check {name} enumerated its finite case list exhaustively ({} cases)", cases.len()));
+                self.subs.push(rep);
+            }
+        }
+    }
+
     /// Replay one file through the property's registration function.
     pub fn replay_file(&mut self, rf: ReplayFile, body: &dyn Fn(&mut Run)) -> ReplayResult {
         let prev = std::mem::replace(&mut self.mode, Mode::Replay(rf));
